@@ -21,7 +21,7 @@ def call(task, **kw):
     """run a task; returns (outputs | None, exception | None)"""
     try:
         return task(worker="debug", **kw), None
-    except Exception as e:
+    except (Exception, SystemExit, KeyboardInterrupt) as e:       # not BaseException: CrossHair steers paths with its own
         return None, e
 
 
@@ -63,7 +63,7 @@ def c13(mode, x, again):
         return None                      # `return None` with declared outputs: listed, not judged
     # failure modes
     if e1 is None:
-        return "mode %d (%s): submission succeeded with outputs %r" % (mode, "raise" if mode == 0 else "return value lacks declared outputs", out1)
+        return "mode %d (%s): submission succeeded with outputs %r" % (mode, "raise" if mode in (0, 12, 13) else "return value lacks declared outputs", out1)
     if mode == 0 and "boom-%d" % x not in (str(e1) + "".join(getattr(e1, "__notes__", []))):
         return "failure reported without the recorded error: %r" % (e1,)
     if res is not None and not res.errored:
@@ -73,6 +73,52 @@ def c13(mode, x, again):
             return "second submission of a failed task succeeded: %r" % (out2,)
         if n2 != 2 * n1 or n1 != 1:
             return "failed task: bodies executed %d then %d (a later submission must execute it again)" % (n1, n2)
+    return None
+
+
+def split_resubmission(n, k, mode):
+    """FlakySplit over n elements, submitted twice to one cache root with max_concurrent k (None = unlimited) on the sequential
+    worker.  mode 'rerun': second submission with rerun=True must execute every job again (C11).  mode 'stale_error': the last
+    element fails in the first submission only; the second submission must execute exactly that element again and succeed (C13)."""
+    from pydra.engine.submitter import Submitter
+    E.reset()
+    R.clear()
+    d = E.scratch()
+    kw = {} if k is None else {"max_concurrent": k}
+    xs = list(range(1, n + 1))
+    res2 = err2 = None
+    try:
+        if mode == "stale_error":
+            R.FLAGS["fail_x"] = n
+        try:
+            with Submitter(cache_root=d, worker="debug", **kw) as sub:
+                sub(D.FlakySplit(xs=xs), raise_errors=False)
+        finally:
+            R.FLAGS.pop("fail_x", None)
+        first = [b[1] for b in bodies("Flaky")]
+        try:
+            with Submitter(cache_root=d, worker="debug", **kw) as sub:
+                res2 = sub(D.FlakySplit(xs=xs), raise_errors=False, rerun=(mode == "rerun"))
+        except Exception as e:
+            err2 = e
+        second = [b[1] for b in bodies("Flaky")][len(first):]
+    finally:
+        R.FLAGS.pop("fail_x", None)
+        E.cleanup(d)
+    T.reach()
+    desc = "split over %s, max_concurrent %s" % (xs, k)
+    if sorted(first) != xs:
+        return "%s: first submission executed %s" % (desc, first)
+    if mode == "rerun":
+        if sorted(second) != xs:
+            return "%s: rerun=True executed %s, every job has to be executed again" % (desc, sorted(second))
+        return None
+    if err2 is not None or res2 is None or res2.errored:
+        return "%s: element %d failed in the first submission only; the second submission executed %s and reports failure (%r)" % (desc, n, second, err2)
+    if second != [n]:
+        return "%s: second submission executed %s, expected exactly the element that had failed (%d)" % (desc, second, n)
+    if list(res2.outputs.out) != [x * 10 + 1 for x in xs]:
+        return "%s: outputs %r" % (desc, res2.outputs.out)
     return None
 
 
@@ -537,7 +583,7 @@ LAZY_SETS = [(), ("a",), ("b",), ("a", "b")]
 
 
 def c30(ops):
-    """ops: list of (kind 0-3 construct with LAZY_SETS[kind] / 4 run, a, b). After every operation the result must equal
+    """ops: list of (kind 0-3 construct with LAZY_SETS[kind] / 4 run / 5, 6 construct, run one shared task object after re-assigning its inputs, a, b). After every operation the result must equal
     that of a fresh construction / run; earlier constructions must not change afterwards."""
     from collections import defaultdict
     from pydra.engine.workflow import Workflow
@@ -545,9 +591,31 @@ def c30(ops):
     R.clear()
     made = []
     hist = []
+    shared = None            # one task object whose inputs are re-assigned (kinds 5 = construct, 6 = run)
     for (kind, a, b) in ops:
         hist.append((kind, a, b))
-        task = D.CW(a=a, b=b)
+        if kind in (5, 6):
+            if shared is None:
+                shared = D.CW(a=a, b=b)
+            else:
+                shared.a, shared.b = a, b
+            task = shared
+            if kind == 5:
+                wf = task.construct()
+                saved = Workflow._constructed_cache
+                Workflow._constructed_cache = defaultdict(lambda: defaultdict(dict))
+                try:
+                    fresh = Workflow.construct(D.CW(a=a, b=b))
+                finally:
+                    Workflow._constructed_cache = saved
+                s, f = _sig(wf), _sig(fresh)
+                if s != f:
+                    T.reach()
+                    return "history %s: construct() of a task whose inputs were re-assigned to a=%d, b=%d differs from a fresh construction:\n  got:   %s\n  fresh: %s" % (hist, a, b, s, f)
+                continue
+            kind = 4
+        else:
+            task = D.CW(a=a, b=b)
         if kind == 4:
             d = E.scratch()
             try:
